@@ -155,7 +155,7 @@ Definition hoist_g_here (G : list val) (o1 o2 : val) (target : val) (b : block) 
           | Some idx =>
               let yt := nth idx thy 0%nat in
               let ye := nth idx ely 0%nat in
-              let late := flat_map top_defs between in
+              let late := map fst rs ++ flat_map top_defs between in
               if existsb (fun fv => mem_nat (snd fv) late) fs then None
               else if existsb (fun s => stmt_launches_on r s) between then None
               else if existsb (fun s => negb (is_launch s) && stmt_launches_on r s) post then None
